@@ -3,7 +3,8 @@
 
    case line:  c19.<stream> <version> <format 4|8> <address_size 4|8> <forest hex> <required hex>
    forest  := unit* ; unit := FE entry*
-   entry   := depth(>=1) tag_hi tag_lo flags(bit0 = DW_AT_declaration) nsites site*
+   entry   := depth(>=1) tag_hi tag_lo flags(bit0 = DW_AT_declaration, bit1 = the writer adds DW_AT_sibling
+              when the entry has children) nsites site*
    site    := carrier op nest tkind tval
      carrier 0 attr UnitRef, 1 attr DebugInfoRef, 2 exprloc op, 3..6 location-list entry
              (3 live, 4 empty, 5 inverted, 6 tombstone)
@@ -25,13 +26,20 @@ type gent = { depth : int; tag : int; decl : bool; sites : gsite list }
 type gforest = gent list list
 
 (* ---------------------------------------------------------------- encoding of the case *)
+(* DW_AT_sibling in the input: 0 nowhere, 1 on every entry with children, 2 on every other entry.  The filter
+   drops the attribute before recording dependencies, so the model has no site for it: the expected output
+   does not depend on this mode. *)
+let sib_mode = ref 0
 let enc_forest (f : gforest) : string =
   let b = Buffer.create 256 in
+  let k = ref 0 in
   let byte i = Buffer.add_string b (Printf.sprintf "%02x" (i land 255)) in
   List.iter (fun u ->
     byte 0xfe;
     List.iter (fun e ->
-      byte e.depth; byte (e.tag lsr 8); byte e.tag; byte (if e.decl then 1 else 0);
+      let sib = (match !sib_mode with 0 -> 0 | 1 -> 2 | _ -> if !k mod 2 = 0 then 2 else 0) in
+      incr k;
+      byte e.depth; byte (e.tag lsr 8); byte e.tag; byte ((if e.decl then 1 else 0) lor sib);
       byte (List.length e.sites);
       List.iter (fun s ->
         byte s.car; byte s.op; byte s.nest;
@@ -256,7 +264,10 @@ let () =
         for code = 0 to 63 do
           let tags = [ small_tags.(code land 3); small_tags.((code lsr 2) land 3); small_tags.((code lsr 4) land 3) ] in
           let u = List.map2 (fun d t -> { depth = d; tag = t; decl = false; sites = [] }) shape tags in
-          List.iter (fun req -> emit_case emit stream ~spec:false 4 4 8 [ u ] req) (subsets 3)
+          List.iter (fun req -> emit_case emit stream ~spec:false 4 4 8 [ u ] req) (subsets 3);
+          sib_mode := 1;
+          List.iter (fun req -> emit_case emit stream ~spec:false 4 4 8 [ u ] req) (subsets 3);
+          sib_mode := 0
         done) (shapes 3);
       (* exhaustive 2: one reference a -> b (attribute UnitRef / DebugInfoRef / DW_OP_call4 / live loclist) *)
       List.iter (fun shape ->
@@ -281,10 +292,12 @@ let () =
         let f = gen_forest r ~ver ~sizes:(split_sizes r total nunits) ~cars:cars_covered ~nesting:false
             ~invalid:(if rand_int r 4 = 0 then 120 else 0) ~maxsites:3 in
         let cnt = count f in
+        sib_mode := (match rand_int r 4 with 0 -> 1 | 1 -> 2 | _ -> 0);
         if cnt <= 10 then
           List.iter (fun req -> emit_case emit stream ~spec:false ver fmt asz f req; incr made) (subsets cnt)
         else
-          for _ = 1 to 8 do emit_case emit stream ~spec:false ver fmt asz f (random_subset r cnt); incr made done
+          for _ = 1 to 8 do emit_case emit stream ~spec:false ver fmt asz f (random_subset r cnt); incr made done;
+        sib_mode := 0
       done);
   register "c19.sites"
     ~doc:"forests with every reference carrier the converter resolves (also DW_OP_implicit_pointer, DW_OP_GNU_variable_value, operations inside DW_OP_entry_value, location-list entries skipped by LocListIter), valid targets only; expected = the model of the (repaired) filter, proved equal to the closure over ALL references"
@@ -312,10 +325,12 @@ let () =
         let total = pick r totals in
         let f = gen_forest r ~ver ~sizes:(split_sizes r total nunits) ~cars:cars_all ~nesting:true ~invalid:0 ~maxsites:2 in
         let cnt = count f in
+        sib_mode := (match rand_int r 4 with 0 -> 1 | 1 -> 2 | _ -> 0);
         if cnt <= 10 then
           List.iter (fun req -> emit_case emit stream ~spec:false ver fmt asz f req; incr made) (subsets cnt)
         else
-          for _ = 1 to 8 do emit_case emit stream ~spec:false ver fmt asz f (random_subset r cnt); incr made done
+          for _ = 1 to 8 do emit_case emit stream ~spec:false ver fmt asz f (random_subset r cnt); incr made done;
+        sib_mode := 0
       done);
   register "c19.tags"
     ~doc:"has_die_back_edge: every tag 0x01..0x50 and every vendor tag of constants.rs x parent tag in {structure_type, namespace, subprogram, lexical_block} x DW_AT_declaration x (parent required | child required); then random 16-bit tags"
@@ -352,8 +367,10 @@ let () =
         let nunits = 1 + rand_int r 3 in
         let f = gen_forest r ~ver ~sizes:(List.init nunits (fun _ -> rand_int r 41)) ~cars:cars_covered ~nesting:false ~invalid:0 ~maxsites:4 in
         let cnt = count f in
+        sib_mode := rand_int r 3;
         if cnt > 0 && cnt < 250 then
-          for _ = 1 to 4 do emit_case emit stream ~spec:false ver fmt asz f (random_subset r cnt); incr made done
+          for _ = 1 to 4 do emit_case emit stream ~spec:false ver fmt asz f (random_subset r cnt); incr made done;
+        sib_mode := 0
       done)
 
 let () =
